@@ -52,7 +52,8 @@ def scenario(ctx, seed):
         rep["manifest"] = open(t.path("build.ninja")).read()
         state = rng.choice(("never", "built", "changed", "changed", "failed"))
         if state != "never":
-            rc, so, se = t.run(["-j3"])
+            # sometimes keep the depfiles of deps=gcc rules on disk (as after a crash, or with -d keepdepfile)
+            rc, so, se = t.run(["-j3"] + (["-d", "keepdepfile"] if rng.random() < 0.4 else []))
             if rc != 0:
                 ctx.inconclusive += 1
                 return
